@@ -299,3 +299,23 @@ for formula, comp in (('CH3CH2OH', {'C': 2, 'H': 6, 'O': 1}), ('H2O', {'H': 2, '
     contract('pmutt:get_molecular_weight', P, label='formula:%s' % formula,
              args=dict(elements=Const(formula)), cross_check=False,
              ensures=['result == ' + ' + '.join('const.atomic_weight[%r] * %d' % kv for kv in comp.items())])
+
+# ---- the tables are constants: nothing that merely *uses* units may edit them ---------------------------------------------------
+SNAP = 'lambda: (dict(const.type_dict), dict(const.prefixes), dict(const.symmetry_dict), dict(const.atomic_weight), dict(const.S_elements))'
+ACTIONS = {
+    'cantera.Units(eV,kcal/mol)': "lambda: pm.cantera.units.Units(act_energy='eV', energy='kcal/mol', quantity='mol', pressure='Pa')",
+    'omkm.Units(eV,kJ/mol)': "lambda: pm.omkm.units.Units(act_energy='eV', energy='kJ/mol', quantity='molec', mass='g')",
+    'convert_unit(eV->J)': "lambda: const.convert_unit(num=x, initial='eV', final='J')",
+    'R(eV/K)': "lambda: const.R('eV/K')",
+    'get_molecular_weight(C10H22)': "lambda: pm.get_molecular_weight('C10H22')",
+    'parse_formula(Uuo2O3)': "lambda: pm.parse_formula('Uuo2O3')",
+}
+for lab, act in ACTIONS.items():
+    lemma('tables-unchanged-by:' + lab, P, forall=dict(x=Real(-5., 5.)), given=[],
+          prove=[('tables-unchanged', 'spec.util.unchanged_by(%s, %s)' % (SNAP, act)),
+                 ('eV-still-an-energy', "spec.util.after(%s, lambda: const.type_dict['eV']) == 'energy'" % act),
+                 ('conversion-after-it', "spec.util.after(%s, lambda: const.convert_unit(num=1., initial='eV', final='J'))"
+                                         " == const.convert_unit(num=1., initial='eV', final='J')" % act)])
+
+from contracts import helpers
+helpers.install(P, 'formula', 'per_mass')
